@@ -1,1 +1,22 @@
-(* placeholder until Proofs/IdlTotal.v exists *)
+(* C09 — IDL parser is total: every input yields a tree or an error.
+   Only statements; proofs live in Proofs/IdlTotal.v. *)
+From VL Require Import Bytes Idl IdlTotal.
+
+(* For every byte string (no size bound) the cursor-faithful model of idl.New
+   never reaches a Go slice-bounds panic and never runs out of fuel: it returns
+   a tree (POk) or an error (PErr). *)
+Theorem C09_total : forall s : bytes, parse s <> PPanic /\ parse s <> PFuel.
+Proof. exact parse_total. Qed.
+Print Assumptions C09_total.
+
+Theorem C09_tree_or_error : forall s : bytes, (exists d, parse s = POk d) \/ parse s = PErr.
+Proof.
+  intro s. destruct (parse_total s) as [Hp Hf].
+  destruct (parse s) as [d| | |]; [left; exists d; reflexivity | right; reflexivity | contradiction | contradiction].
+Qed.
+Print Assumptions C09_tree_or_error.
+
+(* non-vacuity: the model does have panic outcomes elsewhere — a cursor past the end cannot be sliced *)
+Example C09_slice_can_panic : slice 0 (mkCur [] [] 1 1) = None.
+Proof. reflexivity. Qed.
+Print Assumptions C09_slice_can_panic.
